@@ -82,6 +82,8 @@ MUTANTS["C06"] = [
     ("cant_delete-any", "annet/annlib/patching.py", '            if not (match["is_reverse"] and all(match["attrs"]["cant_delete"])):', '            if not (match["is_reverse"] and any(match["attrs"]["cant_delete"])):'),
     ("prio-ignored", "annet/annlib/patching.py", '                    rule["attrs"]["prio"],\n', '                    0,\n'),
     ("interface-default-off", "annet/annlib/rbparser/acl.py", '[raw_rule.startswith("interface")]', '[False]'),
+    ("params-start-at-blank-percent-only", "annet/annlib/rbparser/syntax.py", '        index = raw_rule.index("%")', '        index = raw_rule.index(" %")'),
+    ("single-acl-match-forgets-inherited-globals", "annet/annlib/patching.py", "        return _select_match(matches, rules)\n    return (None, None)  # (match, children_rules)", "        if len(matches) == 1 and matches[0][0][1] and matches[0][0][0][\"type\"] != \"ignore\":\n            m_ = {\"attrs\": copy.deepcopy(matches[0][0][0][\"attrs\"])}\n            m_.update(matches[0][1])\n            return (m_, matches[0][0][0][\"children\"])\n        return _select_match(matches, rules)\n    return (None, None)  # (match, children_rules)"),
 ]
 
 MUTANTS["C02"] = [
